@@ -58,7 +58,8 @@ CONTRACTS['EFLRItem.set_attributes[unknown-name]'] = dict(
     self_fields={'name': 'str', 'first': A2}, params={'kwargs': {'no_such_attribute': 'opq:uval'}}, returns='none',
     raises={'AttributeError': 'True'}, ensures=[])
 OPQ_MODELS['stored'] = {'__isinstance__': {}}
-OPQ_MODELS['npfloat'] = {'__isinstance__': {'Number': True, 'numbers.Number': True, 'float': False, 'int': False}, 'is_integer': 'method:bool'}
+OPQ_MODELS['npfloat'] = {'__isinstance__': {'Number': True, 'numbers.Number': True, 'float': False, 'int': False, 'np.floating': None, 'np.generic': None},
+                         'is_integer': 'method:bool', 'dtype': 'opq:dtype', 'itemsize': 'int:nat', 'nbytes': 'int:nat'}
 OPQ_MODELS['scalar'] = {'__isinstance__': {}, '__notnone__': True}
 
 CONTRACTS['Attribute.representation_code'] = dict(
@@ -150,6 +151,11 @@ CONTRACTS.update({
  'DTimeAttribute._convert_value[number]': dict(
     target='DTimeAttribute._convert_value', props=['C05', 'C12'], self_fields={'_allow_float': 'bool'}, params={'value': 'int'},
     returns='opq:float', raises={'TypeError': 'not self._allow_float'}, ensures=[('a-number-of-seconds-is-kept-as-that-float', 'result == float(value)')]),
+ # C13 / C05: a number given as a numpy float (the min / max of a float32 index channel) is written as the value it has, not as the
+ # shorter decimal it prints as (round 7, C13-N: float(str(np.float32(1000.1))) is 1000.1, the rows hold 1000.0999755859375)
+ 'NumericAttribute._float_parser[npfloat]': dict(
+    target='NumericAttribute._float_parser', props=['C05', 'C13'], params={'value': 'opq:npfloat'}, returns='opq:float',
+    ensures=[('the-value-it-has-not-the-text-it-prints-as', 'result == float(value)')]),
  'NumericAttribute._float_parser[int]': dict(
     target='NumericAttribute._float_parser', props=['C05'], params={'value': 'int'}, returns='opq:float', ensures=[('the-float-of-the-number', 'result == float(value)')]),
  'TextAttribute._check_string': dict(
